@@ -223,6 +223,13 @@ def run(tier, workers=None):
     for md in ("file", "config"):
         hist_cfgs.append(Config(front="wsgi", backend="tree", prefix="/", metadata=md, names={"cal": ["a.ics"], "ab": [], "c2": []}, bodies={"cal": ["X"], "ab": [], "c2": []},
                                 features={"restart", "c2"}, props=props, oracles={"C15"}))
+    # two workers (own store caches) on one directory: what one sets the other must read
+    for md in (("file",) if tier == "quick" else ("file", "config")):
+        hist_cfgs.append(Config(front="wsgi", backend="tree", prefix="/", metadata=md, names={"cal": ["a.ics"], "ab": [], "c2": []}, bodies={"cal": ["X"], "ab": [], "c2": []},
+                                features={"two-workers"}, props={k: v for k, v in props.items() if k != "c2"}, oracles={"C15"}, label="tree/wsgi+two-workers%s" % ("" if md == "file" else "+cfgmeta")))
+    # uploads under the name the store keeps the properties in
+    hist_cfgs.append(Config(front="wsgi", backend="tree", prefix="/", metadata="file", names={"cal": ["a.ics", ".xandikos"], "ab": [".xandikos"], "c2": []}, bodies={"cal": ["X", "CFG"], "ab": ["CFG"], "c2": []},
+                            features=set(), props={"cal": {"displayname": ["v1"]}, "ab": {"displayname": ["v1"]}}, oracles={"C15"}, label="tree/wsgi+reserved-names"))
     e1 = {"states": 0, "transitions": 0, "replays": 0}
     per_cfg = []
     for cfg in hist_cfgs:
@@ -256,4 +263,5 @@ def run(tier, workers=None):
         "a set counts as acknowledged only if the propstat for that property says 200; refusals and 5xx must leave the audit unchanged",
         "';' is not generated for the git-config metadata back end (excluded by the property)",
         "values have no leading/trailing white space and no line breaks",
+        "one history configuration has two workers (second application object with its own store cache on the same directory); both are audited after every request and must agree",
     ])
